@@ -49,6 +49,11 @@ func c13Scenarios(tier string) []*Scenario {
 			if err := r.Close(); err != nil {
 				x.failf("close-error", "%v", err)
 			}
+			pre, bcl, bdet := closeBarrier(kind, []*fastSink{s}, 4)
+			x.Vals["pre"] = pre[0]
+			if bcl != "" {
+				x.failf(bcl, "%s", bdet)
+			}
 			x.Vals["closed"] = true
 		}
 		sc.Check = func(x *Run, o *rt.Outcome) (string, string, string) {
@@ -65,7 +70,7 @@ func c13Scenarios(tier string) []*Scenario {
 					}
 				}
 				return n >= 4
-			})
+			}, x.Vals["pre"].([][]byte)...)
 			got, cl, det := m3Collect(kind, dgs, x.Vals["tmin"].(int64), x.Vals["tmax"].(int64))
 			if cl != "" {
 				return cl, det, "viol"
@@ -103,10 +108,15 @@ func c13Scenarios(tier string) []*Scenario {
 			if err := r.Close(); err != nil {
 				x.failf("close-error", "%v", err)
 			}
+			pre, bcl, bdet := closeBarrier(kind, []*fastSink{s}, 2)
+			x.Vals["pre"] = pre[0]
+			if bcl != "" {
+				x.failf(bcl, "%s", bdet)
+			}
 		}
 		sc0.Check = func(x *Run, o *rt.Outcome) (string, string, string) {
 			s := x.Vals["sink"].(*fastSink)
-			dgs := s.drain(1)
+			dgs := s.readAvailable(append([][]byte{}, x.Vals["pre"].([][]byte)...))
 			got, cl, det := m3Collect(kind, dgs, x.Vals["tmin"].(int64), x.Vals["tmax"].(int64))
 			if cl != "" {
 				return cl, det, "viol"
@@ -177,6 +187,9 @@ func c14Scenarios(tier string) []*Scenario {
 			})
 			cl := rt.GoNamed("closer", func() {
 				closeErrs[0] = r.Close()
+				if live := rt.LiveLibraryThreads(); len(live) > 0 {
+					x.failf("reporter-goroutine-still-running-when-close-returned", "threads started by the reporter that had not finished when Close returned: %v", live)
+				}
 			})
 			p1.Join()
 			p2.Join()
